@@ -290,6 +290,10 @@ if want("ori"):
             so = R.choice([s for s in SMALL if len(s) == len(ss)])
         g1 = R.choice(GROUPS)
         g2 = g1 if R.random() < 0.7 else R.choice(GROUPS)
+        if t % 4 == 1:
+            # pairs whose product sets differ with the order of the factors (cubic with trigonal / hexagonal):
+            # only there does the ORDER of the two symmetries in the element set matter
+            g1, g2 = R.choice([("D3", "T"), ("T", "D3"), ("D6", "O"), ("O", "D6"), ("C3", "O"), ("T", "C6")])
         G1, G2 = getattr(osym, g1), getattr(osym, g2)
         flags = R.choice(["none", "none", "mixed"])
         X = mk_rot(ss, Orientation, flags, G1)
